@@ -642,6 +642,8 @@ class Generator:
         self._canary_mods = 0
         for sf in unit.get("specs", []):
             for b in specfile.parse(os.path.join(VERIF, "contracts", sf)):
+                if b.file in unit.get("spec_skip", {}).get(sf, ()):
+                    continue   # this unit takes the blocks of that repo file from another spec file
                 if b.key() in self.blocks:
                     raise ValueError("duplicate block %s %s" % b.key())
                 self.blocks[b.key()] = b
